@@ -830,3 +830,32 @@ fn dbg_fold_filters_concrete() {
     std::mem::forget(f);
     std::mem::forget(s);
 }
+
+// ---- Stream::decompress bookkeeping with the decoding itself stubbed out --------------------------
+fn stub_decompressed_content(_s: &Stream) -> Result<Vec<u8>> {
+    Ok(vec![0xAA, 0xBB])
+}
+/// decompress(): after a successful decode the stream holds the decoded bytes, Filter AND
+/// DecodeParms are gone (stale predictor parameters would be applied by a later compress/decode
+/// cycle) and Length equals the new content length.  `decompressed_content` is replaced by a stub
+/// returning two fixed bytes: this harness decides decompress()'s own bookkeeping only.
+#[kani::proof]
+#[kani::unwind(3)]
+#[kani::stub(Stream::decompressed_content, stub_decompressed_content)]
+#[kani::stub(std::string::String::from_utf8_lossy, lossy_stub)]
+fn c09_decompress_bookkeeping() {
+    let init: [u8; 2] = kani::any();
+    let mut base = Dictionary::new();
+    base.set("Filter", Object::Name(b"FlateDecode".to_vec()));
+    base.set("DecodeParms", Object::Integer(12));
+    let mut s = Stream::new(base, init.to_vec());
+    let r = s.decompress();
+    assert!(r.is_ok());
+    assert!(!s.dict.has(b"Filter"), "decompress must remove Filter");
+    assert!(!s.dict.has(b"DecodeParms"), "decompress must remove DecodeParms (stale predictor parameters)");
+    assert!(s.content.len() == 2, "content must be the decoded bytes");
+    assert!(length_entry(&s) == 2, "Length must equal the decoded content length");
+    kani::cover!(true);
+    std::mem::forget(r);
+    std::mem::forget(s);
+}
